@@ -29,3 +29,22 @@ Theorem C05_spec_renumbering : forall segs next, (next + total_docs segs < dropp
      (nth j (nth s ms []) dropped = dropped <-> memN (N.of_nat j) dr = true)).
 Proof. exact SpecMergeProof.C05_spec_renumbering. Qed.
 Print Assumptions C05_spec_renumbering.
+
+(* the byte-copy path of the merge (copyStoredDocs: identical field tables, nothing deleted) moves
+   each document's stored block verbatim and writes a new index entry: a block decodes to the same
+   stored values wherever it lies *)
+Require ZV.StoredProof ZV.Layout ZV.LayoutProof ZV.Bytes ZV.Footer.
+Theorem C05_stored_block_copy :
+  forall (snappy_enc : Bytes.bytes -> Bytes.bytes) (dec_snappy : Bytes.bytes -> option Bytes.bytes),
+  (forall x, dec_snappy (snappy_enc x) = Some x) ->
+  forall ft f1 i1 d1 so1 r1 t1 f2 i2 d2 so2 r2 t2 idv (es : list StoredProof.ent),
+  List.Forall (StoredProof.wf_ent ft) es -> Bytes.u64 (LayoutProof.nlenb (List.concat (List.map StoredProof.e_val es))) ->
+  Bytes.u64 (LayoutProof.nlenb idv) ->
+  Bytes.u64 (LayoutProof.nlenb (Bytes.uv (LayoutProof.nlenb idv) ++ StoredProof.enc_ents 0 es)) ->
+  Bytes.u64 (LayoutProof.nlenb (idv ++ snappy_enc (List.concat (List.map StoredProof.e_val es)))) ->
+  (so1 < 256 ^ 8)%N -> (so2 < 256 ^ 8)%N ->
+  Layout.at_off f1 (i1 + 8 * d1)%N = Some (Footer.be 8 so1 ++ r1) -> Layout.at_off f1 so1 = Some (StoredProof.enc_doc snappy_enc idv es ++ t1) ->
+  Layout.at_off f2 (i2 + 8 * d2)%N = Some (Footer.be 8 so2 ++ r2) -> Layout.at_off f2 so2 = Some (StoredProof.enc_doc snappy_enc idv es ++ t2) ->
+  Layout.stored_doc dec_snappy f1 ft i1 d1 = Layout.stored_doc dec_snappy f2 ft i2 d2.
+Proof. exact StoredProof.stored_block_copy. Qed.
+Print Assumptions C05_stored_block_copy.
